@@ -9,7 +9,7 @@ import (
 func TestMain(m *testing.M) { hk.Main(m, "C18") }
 
 func TestRoundTrip(t *testing.T) {
-	hk.RunSub(t, hk.Sub[Plan]{Name: "s1/roundtrip", Quick: 5000, Thorough: 50000, Gen: Gen, Run: Run})
+	hk.RunSub(t, hk.Sub[Plan]{Name: "s1/roundtrip", Quick: 15000, Thorough: 80000, Gen: Gen, Run: Run})
 }
 
 func TestTotality(t *testing.T) {
